@@ -111,7 +111,7 @@ def setup():
 def gen_case(seed, tier):
     rng = sub_rng(seed, "workload")
     alg = rng.choice(ALGS)
-    keylen = rng.choice([1, 8, 16, 32, 64, 65, 80])
+    keylen = rng.choice([0, 1, 8, 16, 32, 64, 65, 80])
     case = {
         "prop": PROP,
         "seed": seed,
@@ -138,7 +138,7 @@ def gen_case(seed, tier):
         "envfault": rng.choice(["none", "none", "drop", "dup", "reorder", "flip_unsigned", "flip_signed", "jump_clock", "last_unsigned"]),
         "envpos": rng.randrange(8),
         "flipbit": rng.randrange(100000),
-        "ring_form": rng.choice(["key", "key", "dict", "dict_origin", "dict_origin", "callable"]),
+        "ring_form": rng.choice(["key", "key", "dict", "dict_origin", "dict_origin", "callable", "dict_bytes", "dict_bytes"]),
     }
     return case
 
@@ -211,6 +211,10 @@ def _real_verify(wire, key_or_ring, request_mac=b"", multi=False, ctx=None):
         k = key_or_ring
         if form == "callable":
             key_or_ring = lambda message, keyname, _k=k: _k if keyname == _k.name else None  # noqa: E731
+        elif form == "dict_bytes":
+            # the classic keyring: name -> bare secret (what dns.tsigkeyring.from_text gives); the
+            # algorithm is then whatever the TSIG record names
+            key_or_ring = {k.name: k.secret}
         else:
             key_or_ring = {k.name: k}
             if form == "dict_origin" and len(k.name) > 2:
@@ -317,6 +321,21 @@ def _scenario_single(case, res, log):
     ok, why, f2 = T.verify_single(secret, kn, alg, rwire2, request_mac=f["mac"])
     if not ok:
         raise Violation("C14:mac-differs-from-rfc", f"response signed by the library {tag}: {why}")
+    # (3b) a signed response that does not fit: with prefer_truncation the library sets TC and drops
+    # records; the MAC must be the one of the message as sent
+    big = dns.message.make_response(qparsed)
+    for i in range(70):
+        big.answer.append(dns.rrset.from_text(f"r{i}." + qparsed.question[0].name.to_text(), 60, "IN", "A", f"10.7.{i}.7"))
+    bw = big.to_wire(max_size=512, prefer_truncation=True)
+    if len(bw) > 512 or not (bw[2] & 0x02):
+        raise Violation("C14:tsig-fields", f"truncated signed response {tag}: {len(bw)} octets, TC {'set' if bw[2] & 0x02 else 'clear'}")
+    ok, why, _f3 = T.verify_single(secret, kn, alg, bw, request_mac=f["mac"])
+    if not ok:
+        raise Violation("C14:mac-differs-from-rfc", f"truncated (TC) response signed by the library {tag}: {why}")
+    r3 = _real_verify(bw, key, request_mac=q.mac)
+    if not _accepts(r3):
+        raise Violation("C14:own-signature-rejected", f"truncated (TC) response {tag}: the library does not validate what it signed: {r3[1:2]}")
+    res.probes.inc("signed_truncated_response")
     # (4) the corrupting channel: single-bit flips of the peer-signed response
     _set_clock(float(t_signed) + 0.5)
     exempt = _exempt_bits(signed)
@@ -372,7 +391,7 @@ def _scenario_identity(case, res, log):
     vkey = key
     want = None
     if kind == "secret":
-        signed, _ = T.sign_single(bytes(b ^ 0x01 for b in secret), kn, alg, rw, t_signed, case["fudge"], request_mac=req_mac)
+        signed, _ = T.sign_single(bytes(b ^ 0x01 for b in secret) or b"\x01", kn, alg, rw, t_signed, case["fudge"], request_mac=req_mac)
         want = {"BadSignature"}
     elif kind == "keyname_keyring":
         signed, _ = T.sign_single(secret, "other." + kn, alg, rw, t_signed, case["fudge"], request_mac=req_mac)
@@ -386,6 +405,12 @@ def _scenario_identity(case, res, log):
         other_alg = [a for a in ALGS if a != alg][case["flipbit"] % (len(ALGS) - 1)]
         signed, _ = T.sign_single(secret, kn, other_alg, rw, t_signed, case["fudge"], request_mac=req_mac)
         want = {"BadAlgorithm"}
+        if _RING_FORM[0] == "dict_bytes":
+            # a bare secret names no algorithm: a message signed with that secret under another
+            # algorithm is genuinely signed
+            res.probes.inc("bare_secret_keyring_any_algorithm")
+            log.add("identity", "algorithm", "bare-secret")
+            return
     elif kind == "request_mac":
         signed, _ = T.sign_single(secret, kn, alg, rw, t_signed, case["fudge"], request_mac=bytes(b ^ 0xFF for b in req_mac))
         want = {"BadSignature"}
